@@ -93,7 +93,18 @@ def constructed_image(ctx, it, st, kind, name, t='BT1886', p='BT709'):
     if kind == 'Rgb':
         args += [mk_enum(ctx.crate, ctx.TC, t), mk_enum(ctx.crate, ctx.CP, p)]
     outs = it.call_fn(st, ctx.entry(f'{mod}::{kind}::new'), args)
-    return [(s, v.fields[0]) for s, v in outs if is_ok(ctx.crate, v)]
+    res = []
+    for s, v in outs:
+        if not is_ok(ctx.crate, v):
+            continue
+        # the Ok path establishes len == <expr>: use the expression as the buffer length
+        for cnd in s.pc:
+            if cnd.op == 'eq' and (cnd.args[0] is n or cnd.args[1] is n):
+                other = cnd.args[1] if cnd.args[0] is n else cnd.args[0]
+                b = s.heap[o]
+                s.heap[o] = Buf(b.elem_tid, other, b.init, b.name, b.stores)
+        res.append((s, v.fields[0]))
+    return res
 
 VALIDATED = {
     'Yuv->Rgb': ('yuv', None), 'Yuv->LinearRgb': ('yuv', None), 'Yuv->Xyb': ('yuv', None),
@@ -119,7 +130,9 @@ def run_validated(ctx, name, T, m, t, p, **kw):
     src, how = VALIDATED[name]
     cfgv = ctx.yuv_config(m=m, t=t, p=p, **kw)
     if src == 'yuv':
-        inputs = [(s, [Ptr(s.alloc(y), ())]) for s, y in constructed_yuv(ctx, it, st, T, cfgv)]
+        ys = constructed_yuv(ctx, it, st, T, cfgv)
+        it.input_yuv = ys[0][1] if ys else None
+        inputs = [(s, [Ptr(s.alloc(y), ())]) for s, y in ys]
     else:
         imgs = constructed_image(ctx, it, st, src, src.lower(), t, p)
         inputs = []
